@@ -215,7 +215,9 @@ fn produce_image_from_entry(entry: &Entry) -> Result<image::RgbaImage, String> {
     })?;
 
     let content_argb = cformat.transcode_to_argb_8888(&texture_data.data);
-    let content = BgraImage::from_raw(content_width, content_height, &content_argb[..]).expect("size error?!");
+    let content = BgraImage::from_raw(content_width, content_height, &content_argb[..]).ok_or_else(|| {
+        format!("not enough image data for {}x{} pixels", content_width, content_height)
+    })?;
 
     let offset_x = entry.specs.offset_x;
     let offset_y = entry.specs.offset_y;
